@@ -53,6 +53,8 @@ type Exec struct {
 	guardHits     map[string]int
 	GhostSorts    map[string]string
 	shiftFacts    [][3]Term
+	afterPats     []string
+	sumFuns       map[string]map[string]bool // element sort -> sum functions declared by the spec builtins sum / sumfield
 	specConsts    map[string]Val
 	specFuns      map[string]specFun
 	nquant, nsort int
